@@ -17,7 +17,7 @@ PROPERTY = 'C04'
 RULE = ('Typed grammar restricted to the dense-time operators (arithmetic, comparisons, Boolean, once/historically/eventually/always/'
         'since/until bounded and unbounded) x piecewise-constant signals on a rational grid (quantum 1/4; thorough also 1/8, 1/2), '
         'break-points of different variables drawn independently (unaligned), 1-8 samples per variable; lanes main (t0=0), shifted '
-        '(t0>0, no variable-free predicate), long (bounds up to 24 cells, longer than the signals), arith, staircase (5-12 samples in long monotone runs under windows up to 16 cells), big (8-20 samples, three variables) and units (bounds with explicit units / the case restated in another default unit, machinery of C08) and reevaluate (one specification object evaluated repeatedly on the same sample list objects, edited in place by the caller between the calls). Oracle: grid reference R-ct; '
+        '(t0>0, no variable-free predicate), long (bounds up to 24 cells, longer than the signals), arith, staircase (5-12 samples in long monotone runs under windows up to 16 cells), big (8-20 samples, three variables) and units (bounds with explicit units / the case restated in another default unit, machinery of C08) bigint (integer samples of the order of 1.7e18 whose small differences are compared with constants, read at the sampling instants against a reference in exact integer arithmetic) and reevaluate (one specification object evaluated repeatedly on the same sample list objects, edited in place by the caller between the calls). Oracle: grid reference R-ct; '
         'the returned sample list must have non-decreasing finite time stamps, start at t0 and, read as a right-continuous step '
         'function, equal R-ct at every cell start, cell midpoint and output time stamp of [t0, earliest last sample]. '
         'Non-trivial = >=1 temporal operator and (>=2 variables with unaligned break-points or a bounded operator); '
@@ -281,7 +281,15 @@ def big_cases(tier):
     return ct_cases(_profile(tier, max_depth=3, max_bound=16, nvars=3), tier, max_samples=20, min_samples=8)
 
 
+def check_bigint(case):
+    """Integer samples beyond 2**53 (machinery of the C19 lane): dense offline at every sampling instant against the reference
+    in exact integer arithmetic."""
+    from . import C19
+    return C19.check_bigint(case, prop='C04')
+
+
 LANES = [
+    Lane('bigint', lambda tier: __import__('vlib.common', fromlist=['bigint_cases']).bigint_cases(dense=True), check_bigint, 500, 5000, None),
     Lane('big', big_cases, check, 300, 5000, ct_candidates),
     Lane('staircase', lambda tier: staircase_cases(tier), check, 1500, 20000, ct_candidates),
     Lane('units', _units_lane, check_units, 800, 10000, None),
